@@ -10,17 +10,23 @@
      ops:  1 clone   2 drop handle   3 start op   4 finish op   5 take() (raw)
            6 close() future (kind 2)   7 c poll   8 c drop future   9 c drop the T obtained
            11 try_unwrap   12 cancel op (its storage is released: same as 4)
-     per step:  ok  open  res  wmask
+           13 c  closer c's future is polled with a fresh waker from now on (moved to another task)
+     per step:  ok  open  res  wmask  smask
        ok    1 = the step was possible
        open  1 = the descriptor is open
        res   poll: 0 Pending 1 Ready(Some) 2 Ready(None) 3 Ready(Ok(()));  try_unwrap: 1 = got it
-       wmask bit c = closer c's future exists and its waker was woken since its last poll
+       wmask bit c = closer c's future exists and its CURRENT waker was woken since its last poll
+       smask bit c = an EARLIER waker of it was woken since its last poll (a stale wake-up)
      then, after dropping everything that is left:  open
    kind 3  [3; drv; (op)*]     accept: 1 poll future  2 drop future  3 client connects
                                4 driver turn  5 drop the accepted stream  6 drop the runtime
      per step:  ok  unheld  res     (unheld = open descriptors the program does not hold;
                                      res: poll 0 Pending 1 Ready(Ok) 2 Ready(Err))
      then, after the teardown (drop future, two driver turns, drop stream, drop runtime):  unheld
+   kind 5  [5; drv; (op)*]     multishot accept (TcpListener::incoming): 1 poll_next  2 drop stream
+                               3 a peer connects  4 driver turn  5 drop a delivered connection  6 drop the runtime
+     per step:  ok  unheld  res     (res: 1 = a connection was delivered)
+     then, after the teardown:  unheld  peers whose server side is still open
    kind 4  oracle-only programs (timing dependent): the model answers [0; 4]
    Every result line starts with [0; kind]. *)
 From Compio.Model Require Import Base SharedFd.
@@ -30,26 +36,33 @@ Definition b2N (b : bool) : N := if b then 1%N else 0%N.
 Definition fut_alive (p : cpc) : bool :=
   match p with CUnpolled | CCreated | CPending | CClosing | CClosed => true | _ => false end.
 
-Fixpoint wmask_from (i : nat) (ww : bool) (l : list closer) : N :=
+(* bit c of [wmask]: closer c's future exists and the waker it is polled with NOW holds a
+   notification; bit c of [smask]: an earlier waker of it does (stale: nobody will act on it) *)
+Fixpoint mask_from (stale : bool) (i : nat) (ws : wst) (l : list closer) : N :=
   match l with
   | [] => 0%N
   | x :: r =>
-    ((if fut_alive (pc x) && winner x && ww then N.pow 2 (NN i) else 0) + wmask_from (S i) ww r)%N
+    let mine := Nat.eqb (fst (wok ws)) i in
+    let cur := Nat.eqb (snd (wok ws)) (gen ws i) in
+    ((if fut_alive (pc x) && winner x && wwoken (base ws) && mine && (if stale then negb cur else cur)
+      then N.pow 2 (NN i) else 0) + mask_from stale (S i) ws r)%N
   end.
 
-Definition wmask (s : st) : N := wmask_from 0 (wwoken s) (closers s).
+Definition wmask (ws : wst) : N := mask_from false 0 ws (closers (base ws)).
+Definition smask (ws : wst) : N := mask_from true 0 ws (closers (base ws)).
 
 Definition is_open (s : st) : bool := negb (is_closed (fd s)).
 
+Definition wtry (g : cfg) (ws : wst) (l : wulabel) : wst :=
+  match wustep g ws l with Some ws' => ws' | None => ws end.
+
 (* submitted close operations run *)
-Fixpoint settle_from (g : cfg) (k : nat) (i : nat) (s : st) : st :=
+Fixpoint settle_from (g : cfg) (k : nat) (i : nat) (ws : wst) : wst :=
   match k with
-  | O => s
-  | S k' =>
-    let s1 := match ustep g s (UKClose i) with Some s' => s' | None => s end in
-    settle_from g k' (S i) s1
+  | O => ws
+  | S k' => settle_from g k' (S i) (wtry g ws (WU (UKClose i)))
   end.
-Definition settle_all (g : cfg) (s : st) : st := settle_from g (length (closers s)) 0 s.
+Definition settle_all (g : cfg) (ws : wst) : wst := settle_from g (length (closers (base ws))) 0 ws.
 
 Definition poll_res (s : st) (c : nat) : N :=
   match nth_error (closers s) c with
@@ -63,59 +76,59 @@ Definition poll_res (s : st) (c : nat) : N :=
   | None => 0%N
   end.
 
-Definition run_op (g : cfg) (rt : bool) (s : st) (op arg : N) : option (st * N) :=
+Definition run_op (g : cfg) (rt : bool) (ws : wst) (op arg : N) : option (wst * N) :=
   let c := nn arg in
+  let plain (l : ulabel) := option_map (fun ws' => (ws', 0%N)) (wustep g ws (WU l)) in
   match op with
-  | 1%N => option_map (fun s' => (s', 0%N)) (ustep g s UClone)
-  | 2%N => option_map (fun s' => (s', 0%N)) (ustep g s UDropHandle)
-  | 3%N => option_map (fun s' => (s', 0%N)) (ustep g s UOpStart)
-  | 4%N | 12%N => option_map (fun s' => (s', 0%N)) (ustep g s UOpFinish)
-  | 5%N => option_map (fun s' => (s', 0%N)) (ustep g s (UTake false))
-  | 6%N => if rt then option_map (fun s' => (s', 0%N)) (ustep g s (UTake true)) else None
-  | 7%N => option_map (fun s' => (s', poll_res s' c)) (ustep g s (UPoll c))
-  | 8%N => option_map (fun s' => (s', 0%N)) (ustep g s (UFutDrop c))
-  | 9%N => option_map (fun s' => (s', 0%N)) (ustep g s (UOwnerDrop c))
+  | 1%N => plain UClone
+  | 2%N => plain UDropHandle
+  | 3%N => plain UOpStart
+  | 4%N | 12%N => plain UOpFinish
+  | 5%N => plain (UTake false)
+  | 6%N => if rt then plain (UTake true) else None
+  | 7%N => option_map (fun ws' => (ws', poll_res (base ws') c)) (wustep g ws (WU (UPoll c)))
+  | 8%N => plain (UFutDrop c)
+  | 9%N => plain (UOwnerDrop c)
   | 11%N =>
-    option_map (fun s' => (s', b2N (negb (Nat.eqb (length (closers s')) (length (closers s))))))
-               (ustep g s UTryUnwrap)
+    option_map (fun ws' => (ws', b2N (negb (Nat.eqb (length (closers (base ws'))) (length (closers (base ws)))))))
+               (wustep g ws (WU UTryUnwrap))
+  | 13%N => option_map (fun ws' => (ws', 0%N)) (wustep g ws (WSwitch c))
   | _ => None
   end.
 
-Fixpoint run_ops (g : cfg) (rt : bool) (s : st) (l : list N) : option (st * list N) :=
+Fixpoint run_ops (g : cfg) (rt : bool) (ws : wst) (l : list N) : option (wst * list N) :=
   match l with
-  | [] => Some (s, [])
+  | [] => Some (ws, [])
   | op :: arg :: r =>
     let '(s1, ok, res) :=
-      match run_op g rt s op arg with
+      match run_op g rt ws op arg with
       | Some (s', res) => (s', true, res)
-      | None => (s, false, 0%N)
+      | None => (ws, false, 0%N)
       end in
     let s2 := if rt then settle_all g s1 else s1 in
     match run_ops g rt s2 r with
-    | Some (sf, out) => Some (sf, b2N ok :: b2N (is_open s2) :: res :: wmask s2 :: out)
+    | Some (sf, out) =>
+      Some (sf, b2N ok :: b2N (is_open (base s2)) :: res :: wmask s2 :: smask s2 :: out)
     | None => None
     end
   | _ => None
   end.
 
 (* drop everything that is left: futures, obtained descriptors, operations, handles *)
-Fixpoint drop_closers (g : cfg) (k i : nat) (s : st) : st :=
+Fixpoint drop_closers (g : cfg) (k i : nat) (ws : wst) : wst :=
   match k with
-  | O => s
-  | S k' =>
-    let s1 := match ustep g s (UFutDrop i) with Some s' => s' | None => s end in
-    let s2 := match ustep g s1 (UOwnerDrop i) with Some s' => s' | None => s1 end in
-    drop_closers g k' (S i) s2
+  | O => ws
+  | S k' => drop_closers g k' (S i) (wtry g (wtry g ws (WU (UFutDrop i))) (WU (UOwnerDrop i)))
   end.
-Fixpoint repeat_u (g : cfg) (k : nat) (l : ulabel) (s : st) : st :=
+Fixpoint repeat_u (g : cfg) (k : nat) (l : ulabel) (ws : wst) : wst :=
   match k with
-  | O => s
-  | S k' => match ustep g s l with Some s' => repeat_u g k' l s' | None => s end
+  | O => ws
+  | S k' => match wustep g ws (WU l) with Some s' => repeat_u g k' l s' | None => ws end
   end.
-Definition cleanup (g : cfg) (s : st) : st :=
-  let s1 := drop_closers g (length (closers s)) 0 s in
-  let s2 := repeat_u g (ops s1) UOpFinish s1 in
-  let s3 := repeat_u g (handles s2) UDropHandle s2 in
+Definition cleanup (g : cfg) (ws : wst) : wst :=
+  let s1 := drop_closers g (length (closers (base ws))) 0 ws in
+  let s2 := repeat_u g (ops (base s1)) UOpFinish s1 in
+  let s3 := repeat_u g (handles (base s2)) UDropHandle s2 in
   settle_all g s3.
 
 (* op codes the harness accepts (try_unwrap only on bare SharedFd programs) *)
@@ -124,7 +137,7 @@ Fixpoint valid_ops (rt : bool) (l : list N) : bool :=
   | [] => true
   | op :: _ :: r =>
     (match op with
-     | 1%N | 2%N | 3%N | 4%N | 5%N | 6%N | 7%N | 8%N | 9%N | 12%N => true
+     | 1%N | 2%N | 3%N | 4%N | 5%N | 6%N | 7%N | 8%N | 9%N | 12%N | 13%N => true
      | 11%N => negb rt
      | _ => false
      end) && valid_ops rt r
@@ -133,8 +146,8 @@ Fixpoint valid_ops (rt : bool) (l : list N) : bool :=
 
 Definition run_fd (rt : bool) (l : list N) : list N :=
   if negb (valid_ops rt l) then BAD_CASE else
-  match run_ops current rt init l with
-  | Some (s, out) => out ++ [b2N (is_open (cleanup current s))]
+  match run_ops current rt winit l with
+  | Some (s, out) => out ++ [b2N (is_open (base (cleanup current s)))]
   | None => BAD_CASE
   end.
 
@@ -180,6 +193,44 @@ Fixpoint run_pops (s : pst) (l : list N) : option (list N) :=
     end
   end.
 
+(* ---- kind 5: multishot accept ------------------------------------------ *)
+
+Definition dec_mlabel (op : N) : option mlabel :=
+  match op with
+  | 1%N => Some MPoll
+  | 2%N => Some MDrop
+  | 3%N => Some MConnect
+  | 4%N => Some MDrive
+  | 5%N => Some MUserDrop
+  | 6%N => Some MDriverDrop
+  | _ => None
+  end.
+
+Definition mtry (s : mst) (l : mlabel) : mst :=
+  match mstep s l with Some s' => s' | None => s end.
+Fixpoint mrepeat (k : nat) (l : mlabel) (s : mst) : mst :=
+  match k with O => s | S k' => mrepeat k' l (mtry s l) end.
+(* teardown: drop the stream, two driver turns, drop what was delivered, drop the runtime *)
+Definition mcleanup (s : mst) : mst :=
+  let s1 := mtry (mtry (mtry s MDrop) MDrive) MDrive in
+  mtry (mrepeat (held s1) MUserDrop s1) MDriverDrop.
+
+Fixpoint run_mops (s : mst) (l : list N) : option (list N) :=
+  match l with
+  | [] => let f := mcleanup s in Some [NN (m_unheld f); NN (m_unheld f + held f)]
+  | op :: r =>
+    match dec_mlabel op with
+    | None => None
+    | Some lab =>
+      let '(s1, ok) := match mstep s lab with Some s' => (s', true) | None => (s, false) end in
+      let res := match lab with MPoll => if ok && Nat.ltb (held s) (held s1) then 1%N else 0%N | _ => 0%N end in
+      match run_mops s1 r with
+      | Some out => Some (b2N ok :: NN (m_unheld s1) :: res :: out)
+      | None => None
+      end
+    end
+  end.
+
 (* every result line starts with [0; kind] *)
 Definition tag (k : N) (out : list N) : list N :=
   match out with
@@ -200,5 +251,12 @@ Definition run_c06 (l : list N) : list N :=
       end
     else BAD_CASE
   | 4%N :: _ => [0%N; 4%N]
+  | 5%N :: drv :: r =>
+    if (N.leb drv 1 && Nat.leb (count_occ N.eq_dec r 3%N) 6)%bool then
+      match run_mops (minit (N.eqb drv 0)) r with
+      | Some out => tag 5 out
+      | None => BAD_CASE
+      end
+    else BAD_CASE
   | _ => BAD_CASE
   end.
